@@ -289,8 +289,14 @@ def signature(clause, ln, meta):
     extra = ""
     if q is not None and parts[0] == "qlog-not-serialisable":
         extra = ":" + q["raised"]
-    elif q is not None and parts[0].startswith("packet-"):
-        extra = ":records=%d/%s:observed=%d/%s" % (len(q["sentRecords"]), sum(q["recvRecords"]), len(q["sent"]), sum(q["processed"]))
+    elif q is not None and parts[0] == "packet-received-record-count":
+        extra = ":" + ",".join("%s-%s" % ("more" if a > b else "fewer", t) for t, a, b in
+                               zip(P.QLOG_TYPES, q["recvRecords"], q["processed"]) if a != b)
+    elif q is not None and parts[0].startswith("packet-sent") or q is not None and parts[0] == "accounting":
+        rec, obs = q["sentRecords"], q["sent"]
+        k = next((i for i, (a, b) in enumerate(zip(rec, obs)) if a != b), min(len(rec), len(obs)))
+        extra = ":%s:at-%s" % ("fewer" if len(rec) < len(obs) else "more" if len(rec) > len(obs) else "other",
+                               (obs[k] if len(rec) <= len(obs) and k < len(obs) else rec[k] if k < len(rec) else "end").split(":")[0])
     return "logpair:" + clause + extra
 
 
